@@ -44,6 +44,32 @@ _dedup_callee = FnSpec(
              'all(x in path for x in result)', 'all(x in result for x in path)'],
     note='postconditions proved by C20._remove_duplicates_from_path (generator rule)')
 
+def _replay_base(inp):
+    """the real Project._get_base_sys_path for a Script whose inference state runs in ANOTHER environment than the
+    project's default one (Script(..., environment=...))"""
+    from pyvc.replay import run_real
+    from jedi.api.project import Project
+
+    class Env:
+        def __init__(self, entries):
+            self.entries = entries
+
+        def get_sys_path(self):
+            return list(self.entries)
+
+    class State:
+        def __init__(self):
+            self.memoize_cache = {}
+            self.environment = Env(inp['script_env'])
+    pr = Project('/proj')
+    pr._environment = Env(inp['project_env'])
+    out = run_real(lambda: pr._get_base_sys_path(State()))
+    exp = list(inp['script_env'])
+    if '' in exp:
+        exp.remove('')
+    return {'EXPECTED': exp}, out
+
+
 _base = Contract(
     id='C20.Project._get_base_sys_path', prop='C20',
     clause='the base path is the environment\'s sys.path without the "" (cwd) entry, order kept',
@@ -58,6 +84,9 @@ _base = Contract(
     ],
     notes='list.remove removes the first "" only (CPython semantics); decorator '
           'inference_state_as_method_param_cache memoises per inference state (assumed transparent)',
+    witness={}, replay=_replay_base, concrete_only=True, concrete_ensures=['result == EXPECTED'],
+    witness_library=[{'script_env': ['', '/envA/lib', '/envA/site'], 'project_env': ['', '/envB/lib']},
+                     {'script_env': ['/envA/lib'], 'project_env': ['/envA/lib']}],
 )
 
 def _replay_get_sys_path(inp):
@@ -215,7 +244,10 @@ FAMILIES = [
            methods={'_get_base_sys_path': FnSpec('Project._get_base_sys_path',
                                                  params=[('inference_state', Obj('InfState20'))], ret=Seq(STR),
                                                  pure=True, assumed=False, shared_result=True,
-                                                 note='memoised per inference state: the same list on every call')}),
+                                                 note='memoised per inference state: the same list on every call'),
+                    'get_environment': FnSpec('Project.get_environment', ret=Obj('Env20'), pure=True, assumed=True,
+                                              note='the PROJECT\'s default environment - not necessarily the one the '
+                                                   'Script runs in')}),
     Family('InfState20', attrs={'environment': Obj('Env20'), 'script_path': Opt(PATH)}),
     Family('Env20', methods={'get_sys_path': FnSpec('Environment.get_sys_path', ret=Seq(STR), pure=True,
                                                     assumed=True, shared_result=True,
